@@ -158,6 +158,16 @@ func (hv *helperView) dataConds(p *Path) map[string]bool {
 				continue
 			}
 		}
+		// range / membership tests on a value of an enumerated type select the modifier, they are not data tests
+		if (cd.Atom.Op == "lt" || cd.Atom.Op == "in") && len(cd.Atom.A) >= 2 {
+			x := stripConv(cd.Atom.A[0])
+			if cd.Atom.Op == "lt" && cd.Atom.A[0].IsConst() {
+				x = stripConv(cd.Atom.A[1])
+			}
+			if _, isEnum := hv.c.w.enumDomain(x.Ty); isEnum && (cd.Atom.Op == "in" || cd.Atom.A[0].IsConst() || cd.Atom.A[1].IsConst()) {
+				continue
+			}
+		}
 		out[hv.norm(cd.Atom)] = cd.Val
 	}
 	return out
